@@ -1,2 +1,76 @@
-def canary(curve):
-    raise RuntimeError("small curve not yet implemented")
+"""E2 - scaled-down instances: tiny curves y^2 = x^3 + 7 over F_p (p = 3 mod 4, prime order n, cofactor 1)."""
+import os
+
+from vf.ref.ecref import Curve
+
+# (p, n, Gx, Gy): found by brute force (regenerated and compared in the selftest)
+TABLE = [
+    (43, 31, 2, 12),
+    (67, 79, 2, 22),
+    (79, 67, 1, 18),
+    (127, 127, 1, 32),
+    (163, 139, 2, 34),
+    (211, 199, 3, 33),
+]
+
+
+def curve(t):
+    p, n, gx, gy = t
+    return Curve(p, 0, 7, n, (gx, gy))
+
+
+def brute_force(pmax=220):
+    out = []
+    for p in range(5, pmax):
+        if p % 4 != 3 or any(p % q == 0 for q in range(2, int(p ** 0.5) + 1)):
+            continue
+        C = Curve(p, 0, 7, 0, None)
+        pts = C.all_points()
+        n = len(pts) + 1
+        if n < 20 or any(n % q == 0 for q in range(2, int(n ** 0.5) + 1)):
+            continue
+        G = pts[0]
+        out.append((p, n, G[0], G[1]))
+    return out
+
+
+SECP = (0xFFFFFFFFFFFFFFFFFFFFFFFFFFFFFFFFFFFFFFFFFFFFFFFFFFFFFFFEFFFFFC2F,
+        0xFFFFFFFFFFFFFFFFFFFFFFFFFFFFFFFEBAAEDCE6AF48A03BBFD25E8CD0364141,
+        0x79BE667EF9DCBBAC55A06295CE870B07029BFCDB2DCE28D959F2815B16F81798,
+        0x483ADA7726A3C4655DA4FBFC0E1108A8FD17B448A68554199C47D08FFB10D4B8)
+
+
+def canary(t):
+    """the retargeting took, judged by VALUE (not behaviour): module constants, re-exports, default arguments,
+    and no 256-bit secp256k1 literal left in the code objects of the modules the small-curve layers use."""
+    import bits.ecmath as em
+    import bits.bips.bip340 as b340
+    import bits.utils as bu
+    import bits.keys as bk
+    p, n, gx, gy = t
+    want = {"SECP256K1_P": p, "SECP256K1_N": n, "SECP256K1_Gx": gx, "SECP256K1_Gy": gy}
+    for k, v in want.items():
+        if getattr(em, k) != v:
+            raise RuntimeError(f"retarget: ecmath.{k} = {getattr(em, k)} != {v}")
+        if hasattr(b340, k) and getattr(b340, k) != v:
+            raise RuntimeError(f"retarget: bip340.{k} = {getattr(b340, k)} != {v}")
+    secp = set(SECP)
+
+    def scan(code, where):
+        for c in code.co_consts:
+            if isinstance(c, int) and c in secp:
+                raise RuntimeError(f"retarget: secp256k1 literal in {where}")
+            if isinstance(c, tuple) and any(isinstance(x, int) and x in secp for x in c):
+                raise RuntimeError(f"retarget: secp256k1 literal tuple in {where}")
+            if hasattr(c, "co_consts"):
+                scan(c, where)
+    import types
+    for mod in (em, b340, bu, bk):
+        for name, obj in vars(mod).items():
+            if isinstance(obj, types.FunctionType) and obj.__module__ == mod.__name__:
+                scan(obj.__code__, f"{mod.__name__}.{name}")
+                for d in (obj.__defaults__ or ()):
+                    vals = d if isinstance(d, tuple) else (d,)
+                    if any(isinstance(x, int) and x in secp for x in vals):
+                        raise RuntimeError(f"retarget: secp256k1 default argument in {mod.__name__}.{name}")
+    return True
